@@ -54,7 +54,7 @@ func readGuarded(ti *typeInfo, payload []byte, v2 bool, before, after int) (mess
 
 func TestC04RoundTrip(t *testing.T) {
 	rec := evid.New(t, "C04", "for every message type (shipped + user structs) and both versions: Read(Write(v)) == canonical(v); v2 Write never ends in 0x00 unless 1 byte long and is never empty for non-empty messages; Read(p) == Read(p ++ 0^k) == Read(strip0(p)); bytes beyond the extended size are ignored; v1 accepts exactly the base size; payloads are carved out of a larger sentinel-filled backing array (cap > len) and the whole array must be unchanged after Read; non-trivial = payload shorter than the extended size with cap > len, or all-zero message, or 255-byte message, or extension-only tail; distinct by (type, payload hash, version)")
-	rec.Require("short-payload-with-capacity", "all-zero-message", "v1-wrong-length", "tail-beyond-ext", "zero-appended", "zero-stripped", "has-extension", "decoded-message-edited-and-encoded-again")
+	rec.Require("short-payload-with-capacity", "all-zero-message", "v1-wrong-length", "tail-beyond-ext", "zero-appended", "zero-stripped", "has-extension", "decoded-message-edited-and-encoded-again", "codec-built-from-a-populated-value")
 	tys := types(t)
 	evid.Check(t, rec, len(tys)*evid.N(150, 500), func(t *rapid.T) {
 		ti := tys[rapid.IntRange(0, len(tys)-1).Draw(t, "type")]
@@ -98,6 +98,20 @@ func TestC04RoundTrip(t *testing.T) {
 		}
 		if !ref.EqualMsg(got, canon) {
 			fail("Read(Write(v)) is not the canonical form:\n got  %+v\n want %+v", got, canon)
+		}
+		// a codec may be built from any value of the type (the value only names the type): what it decodes is what the
+		// payload says - in v1 the extension fields are zero, whatever the value the codec was built from holds
+		{
+			proto := gen.Value(t, ti.lay).(message.Message)
+			prw := &message.ReadWriter{Message: proto}
+			if err := prw.Initialize(); err != nil {
+				fail("a codec built from a populated value of the type is refused: %v", err)
+			}
+			g, err := safeRead(prw, &message.MessageRaw{ID: ti.msg.GetID(), Payload: append([]byte(nil), p...)}, v2)
+			if err != nil || !ref.EqualMsg(g, canon) {
+				fail("codec built from the populated value %+v: the payload %x decodes as\n %+v (err %v), want\n %+v", proto, p, g, err, canon)
+			}
+			cls = append(cls, "codec-built-from-a-populated-value")
 		}
 		// a decoded message belongs to the caller: filled with another value and encoded again (a router that edits what
 		// it forwards) it says what it holds now, not what it held when it was decoded
